@@ -1,4 +1,4 @@
-//@props C03 C20
+//@props C02 C03 C13 C20
 // Unit stages: wgsl::{global_shader_stages, naga_stages, update_stages_blocks, update_stages}
 // against the DAG-DFS contract of DESIGN.md 5/C03 and the memoisation measure of C20.
 #![feature(allocator_api)]
@@ -118,6 +118,13 @@ pub open spec fn gss_complete(m: &naga::Module, gs: Map<String, wgpu::ShaderStag
 }
 
 // ---------------- stage map ----------------
+// only the VERTEX | FRAGMENT | COMPUTE bits ever occur
+pub open spec fn bounded(gs: Map<String, wgpu::ShaderStages>) -> bool { forall|n: String| #[trigger] gs.contains_key(n) ==> gs[n].bits < 8 }
+pub proof fn lemma_bits8()
+    ensures forall|a: u32, b: u32| a < 8 && b < 8 ==> #[trigger] (a | b) < 8,
+{
+    assert(forall|a: u32, b: u32| a < 8 && b < 8 ==> #[trigger] (a | b) < 8) by(bit_vector);
+}
 pub open spec fn sub(a: u32, b: u32) -> bool { a & b == a }
 pub open spec fn has(gs: Map<String, wgpu::ShaderStages>, name: String, stage: wgpu::ShaderStages) -> bool {
     gs.contains_key(name) && sub(stage.bits, gs[name].bits)
@@ -388,6 +395,39 @@ fn naga_stages(stage: naga::ShaderStage) -> «(r:» wgpu::ShaderStages«)
 }
 //@end
 
+pub open spec fn entry_bits(es: Seq<naga::EntryPoint>) -> u32 decreases es.len() { if es.len() == 0 { 0 } else { entry_bits(es.drop_last()) | stage_bit(es.last().stage) } }
+pub proof fn lemma_entry_bits(es: Seq<naga::EntryPoint>, ss: Seq<wgpu::ShaderStages>)
+    requires ss.len() == es.len(), forall|i: int| 0 <= i < es.len() ==> (#[trigger] ss[i]).bits == stage_bit(es[i].stage),
+    ensures wgpu::or_all(ss) == entry_bits(es), entry_bits(es) < 8,
+    decreases es.len(),
+{
+    lemma_bits8();
+    if es.len() > 0 {
+        lemma_entry_bits(es.drop_last(), ss.drop_last());
+    }
+}
+
+//@fn wgsl.rs::entry_stages props=C13
+pub fn entry_stages(module: &naga::Module) -> «(r:» wgpu::ShaderStages«)
+    ensures
+        r.bits == entry_bits(module.entry_points@), // [C13.entry-stages] the union of the stages that have an entry point
+        r.bits < 8,»
+{
+    «let ghost es = module.entry_points@;
+    let ghost mut gm;
+    { let __r = { let __m =» module
+        .entry_points
+        .iter()
+        .map(|entry| «-> (o: wgpu::ShaderStages) ensures o.bits == stage_bit(entry.stage) {» naga_stages(entry.stage) «}»)«; proof { gm = __m; } __m }»
+        .collect()«; proof {
+            let ss = gm.remaining();
+            assert(ss.len() == es.len());
+            assert forall|i: int| 0 <= i < es.len() implies (#[trigger] ss[i]).bits == stage_bit(es[i].stage) by {}
+            lemma_entry_bits(es, ss);
+        } __r» }
+«}»
+//@end
+
 //@fn wgsl.rs::update_stages_blocks
 fn update_stages_blocks(
     module: &naga::Module,
@@ -396,8 +436,9 @@ fn update_stages_blocks(
     stage: wgpu::ShaderStages,
     visited: &mut HashSet<naga::Handle<naga::Function>>,
 )
-    «requires wf(module), block_inv(module, block, old(visited)@, old(global_stages)@, stage),
+    «requires wf(module), block_inv(module, block, old(visited)@, old(global_stages)@, stage), bounded(old(global_stages)@), stage.bits < 8,
     ensures
+        bounded(final(global_stages)@), // [C03.blocks-bounded] no bit outside VERTEX|FRAGMENT|COMPUTE is ever added
         mono(old(global_stages)@, final(global_stages)@), // [C03.blocks-mono] no key disappears, no stage bit is lost
         vmono(old(visited)@, final(visited)@),
         new_done(module, old(visited)@, final(visited)@, final(global_stages)@, stage), // [C03.blocks-newdone] every function visited here has all its reachable globals marked
@@ -414,7 +455,7 @@ fn update_stages_blocks(
             b0 == *block,
             it.seq().len() == block_stmts(&b0).len(),
             forall|j: int| 0 <= j < it.seq().len() ==> *(#[trigger] it.seq()[j]) == block_stmts(&b0)[j],
-            wf(module),
+            wf(module), bounded(global_stages@), stage.bits < 8,
             mono(gs0, global_stages@), vmono(v0, visited@), new_done(module, v0, visited@, global_stages@, stage),
             block_inv(module, &b0, visited@, global_stages@, stage),
             forall|jj: int, c: int| 0 <= jj < it.index@ && #[trigger] calls_at(&b0, jj, c) ==> callee_post(module, c, visited@, global_stages@, stage),»
@@ -475,7 +516,7 @@ fn update_stages_blocks(
                         forall|k: int| 0 <= k < it2.seq().len() ==> *(#[trigger] it2.seq()[k]) == cases@[k],
                         sub_blocks(&st) =~= cases@.map_values(|c: naga::SwitchCase| c.body),
                         st == block_stmts(&b0)[j], 0 <= j < block_stmts(&b0).len(),
-                        wf(module),
+                        wf(module), bounded(global_stages@), stage.bits < 8,
                         mono(gs1, global_stages@), vmono(v1, visited@), new_done(module, v1, visited@, global_stages@, stage),
                         block_inv(module, &b0, visited@, global_stages@, stage),
                         forall|k: int| 0 <= k < it2.index@ ==> sub_post(module, &#[trigger] sub_blocks(&st)[k], visited@, global_stages@, stage),»
@@ -612,8 +653,9 @@ fn update_stages(
     visited: &mut HashSet<naga::Handle<naga::Function>>,
 )
     «requires wf(module), fn_ok(module, function, nfun(module)),
-        fn_inv(module, function, old(visited)@, old(global_stages)@, stage),
+        fn_inv(module, function, old(visited)@, old(global_stages)@, stage), bounded(old(global_stages)@), stage.bits < 8,
     ensures
+        bounded(final(global_stages)@), // [C03.fn-bounded]
         mono(old(global_stages)@, final(global_stages)@), // [C03.fn-mono]
         vmono(old(visited)@, final(visited)@),
         new_done(module, old(visited)@, final(visited)@, final(global_stages)@, stage), // [C03.fn-newdone]
@@ -638,7 +680,7 @@ fn update_stages(
             it.iter.obeys_prophetic_iter_laws(),
             it.seq().len() == exprs(function).len(),
             forall|j: int| 0 <= j < it.seq().len() ==> *(#[trigger] it.seq()[j]).1 == exprs(function)[j],
-            wf(module), fn_ok(module, function, nfun(module)),
+            wf(module), fn_ok(module, function, nfun(module)), bounded(global_stages@), stage.bits < 8,
             mono(gs0, global_stages@), vmono(v0, visited@), new_done(module, v0, visited@, global_stages@, stage),
             fn_inv(module, function, visited@, global_stages@, stage),
             forall|c: int| #[trigger] block_calls(&function.body, c) ==> callee_post(module, c, visited@, global_stages@, stage),
@@ -663,6 +705,8 @@ fn update_stages(
                     *stages = stages.union(stage);
                 }
                 «proof {
+                    lemma_bits8();
+                    assert(bounded(global_stages@));
                     assert(mono(gs1, global_stages@));
                     lemma_mono_trans(gs0, gs1, global_stages@);
                     lemma_fn_inv_step(module, function, v1, visited@, gs1, global_stages@, stage);
@@ -750,6 +794,7 @@ fn update_stages(
 pub fn global_shader_stages(module: &naga::Module) -> «(r:» BTreeMap<String, wgpu::ShaderStages>«)
     requires wf(module), wf_entries(module),
     ensures
+        bounded(r@), // [C03.bounded] only VERTEX | FRAGMENT | COMPUTE bits occur in any visibility
         gss_complete(module, r@, module.entry_points@.len() as int), // [C03.complete] no using stage is ever missing: a global reachable from an entry point of stage S (through any chain of calls, any nesting) has S in its visibility»
 {
     // Collect the shader stages for all entries that access a global variable.
@@ -761,7 +806,7 @@ pub fn global_shader_stages(module: &naga::Module) -> «(r:» BTreeMap<String, w
             wf(module), wf_entries(module),
             it.seq().len() == module.entry_points@.len(),
             forall|k: int| 0 <= k < it.seq().len() ==> *(#[trigger] it.seq()[k]) == module.entry_points@[k],
-            gss_complete(module, global_stages@, it.index@ as int),»
+            gss_complete(module, global_stages@, it.index@ as int), bounded(global_stages@),»
     {
         «broadcast use axiom_handle_key_model;
         let ghost j = it.index@ as int;
